@@ -237,7 +237,21 @@ func c09Scenario(r *vf.Run, t *testing.T, id string, rng *rand.Rand) {
 				inserted = append(inserted, ins1, ins2)
 				out := rt.Concat(rt.HeaderFrames(sid, enc(fs, choicesFor(fs)), nil, -1, nil, !inflight))
 				if inflight {
-					out = append(out, wire.Frame(nil, wire.TData, wire.FEndStream, sid, make([]byte, 100), -1)...)
+					// what a peer that has not read the refusal yet still sends on the stream: the body, or it gives the request up
+					// itself, or credit / priority for it
+					switch rng.Intn(4) {
+					case 0:
+						out = append(out, wire.Frame(nil, wire.TData, wire.FEndStream, sid, make([]byte, 100), -1)...)
+					case 1:
+						out = append(out, rt.RstStream(sid, 8)...)
+					case 2:
+						out = append(out, wire.Frame(nil, wire.TData, 0, sid, make([]byte, 100), -1)...)
+						out = append(out, rt.RstStream(sid, 8)...)
+					case 3:
+						out = append(out, rt.WindowUpdate(sid, 1000)...)
+						out = append(out, rt.Priority(sid, 0, false, 5)...)
+						out = append(out, wire.Frame(nil, wire.TData, wire.FEndStream, sid, make([]byte, 100), -1)...)
+					}
 				}
 				triggers = append(triggers, "hpack.refusedStreamHeaderBlock")
 				e.P.Write(out)
@@ -288,16 +302,30 @@ func c09Scenario(r *vf.Run, t *testing.T, id string, rng *rand.Rand) {
 				fs := append(append([]F{}, base...), ins1, ins2)
 				inserted = append(inserted, ins1, ins2)
 				var gt chan struct{}
+				var midBlock []byte
 				if kind == "timeout-handler-running" {
 					gt = e.H.NewGate()
 					e.H.SetPlan(tag, &rt.RespPlan{Status: 200, Body: make([]byte, 300), Gate: gt})
 					e.P.Write(rt.Concat(rt.HeaderFrames(sid, enc(fs, choicesFor(fs)), nil, -1, nil, true)))
+				} else if rng.Intn(3) == 0 {
+					// the request is still in the middle of its header block when the server gives up on it: the block is cut
+					// inside a field, and its rest arrives (CONTINUATION) after the timeout, for a stream that no longer exists
+					blk := enc(fs, choicesFor(fs))
+					cut := 1 + rng.Intn(len(blk)-1)
+					frames := rt.HeaderFrames(sid, blk, []int{cut}, -1, nil, false)
+					e.P.Write(frames[0])
+					midBlock = rt.Concat(frames[1:])
+					r.Inc("request_timeouts_in_the_middle_of_a_header_block", 1)
 				} else {
 					e.P.Write(append(rt.Concat(rt.HeaderFrames(sid, enc(fs, choicesFor(fs)), nil, -1, nil, false)), data(200, false)...))
 				}
 				rt.Wait()
 				time.Sleep(readTimeout + time.Second)
 				rt.Wait()
+				if midBlock != nil {
+					e.P.Write(midBlock)
+					rt.Wait()
+				}
 				reset := false
 				for _, f := range rt.FramesFor(e.P.Frames(), sid) {
 					reset = reset || f.Type == wire.TRstStream
